@@ -26,6 +26,10 @@ def run(check: Check, repo: Repo, tier: str) -> None:
     T.subscription_convert(check, repo)
     T.fresh_state(check, repo)
     T.derived_state(check, repo)
+    T.collected_origin(check, repo)
+    from rules import generic_rules as G
+    G.param_used(check, [repo.mod("execution.execute"), repo.mod("execution.async_iterables"), repo.mod("graphql")])
+    X.memo_discovery(check, repo, repo.package_modules("execution"))
     X.fin_cleanup(check, repo)
     T.cm_no_swallow(check, repo, repo.package_modules('execution') + repo.package_modules('pyutils'))
     T.stream_disabled(check, repo)
